@@ -74,10 +74,20 @@ def parseMode : String → Option OpenMode
 
 /-! ### state -/
 
+/-- a persistent object of the h-operations with the flags of the protocol (see harness/c17.cpp) -/
+structure HSt where
+  obj : Obj
+  dirty : Bool := false
+  poisoned : Bool := false
+  spent : Bool := false
+  ver : Nat := 0
+
 structure St where
   disk : Disk
   xdev : Bool
   sess : Option Handle
+  hs : List (Option HSt) := [none, none, none, none]
+  pver : Nat → Nat := fun _ => 0
 
 def init : St := { disk := fun _ => none, xdev := false, sess := none }
 
@@ -142,7 +152,146 @@ def applyApi (d0 : Disk) (api : String) (bs : List UInt8) : Option Disk :=
 def threeViews (d : Disk) : String :=
   s!"{size d 0} {showBytes (content d 0)} raw={b01 ((d 0) == some (content d 0))}"
 
-def step (st0 : St) (ts : List String) : St × String :=
+/-! ### h-operations: persistent objects -/
+
+/-- −1 closed, 0 r, 1 w, 2 a, 3 rw -/
+def HSt.mode (h : HSt) : Int :=
+  match h.obj.file with
+  | none => -1
+  | some f => match f.mode with | .read => 0 | .write => 1 | .append => 2 | .rw => 3
+
+def hGet (st : St) (i : Nat) : Option HSt := (st.hs.getD i none)
+def hSet (st : St) (i : Nat) (h : Option HSt) : St := { st with hs := st.hs.set i h }
+
+def pathDirty (st : St) (p : Nat) : Bool :=
+  st.hs.any fun o => match o with | some h => h.obj.path == p && h.dirty | none => false
+
+def otherWriter (st : St) (self p : Nat) : Bool :=
+  (st.hs.zipIdx).any fun (o, i) => match o with
+    | some h => i != self && h.obj.path == p && h.mode ≥ 1
+    | none => false
+
+def bumpVer (st : St) (p : Nat) : St := { st with pver := fun q => if q = p then st.pver p + 1 else st.pver q }
+
+def closeH (h : HSt) : HSt := { obj := h.obj.close, ver := h.ver }
+
+def closeAllHandles (st : St) : St := { st with hs := st.hs.map fun o => o.map closeH }
+
+def hstep (st : St) (ts : List String) : St × String :=
+  match ts with
+  | op :: hn :: args =>
+    match hn.toNat? with
+    | none => (st, "bad-op")
+    | some hi =>
+    if hn.length != 1 || hi > 3 then (st, "bad-op") else
+    if op == "hnew" then
+      match args with
+      | [p, k] => match parsePath p with
+        | some p => if k != "f" && k != "t" then (st, "bad-op") else
+          (hSet st hi (some { obj := Obj.new p (k == "t") }), "ok")
+        | none => (st, "bad-op")
+      | _ => (st, "bad-op")
+    else
+    match hGet st hi with
+    | none => (st, "err nohandle")
+    | some h =>
+    let p := h.obj.path
+    let upd (st : St) (h : HSt) : St := hSet st hi (some h)
+    match op, args with
+    | "hopen", [m] => match parseMode m with
+      | none => (st, "bad-op")
+      | some m =>
+        let h := if h.mode ≥ 0 then closeH h else h
+        let st := upd st h
+        if m != .read && otherWriter st hi p then (st, "err busy") else
+        let r := h.obj.open st.disk m
+        if !r.1 then ({ upd st { h with obj := r.2.2 } with disk := r.2.1 }, "err open") else
+        let st := { st with disk := r.2.1 }
+        let st := if m == .write || m == .append then bumpVer st p else st
+        (upd st { h with obj := r.2.2, ver := st.pver p }, "ok")
+    | "hclose", [] => (upd st (closeH h), "ok")
+    | "hflush", [] => if h.mode < 0 then (st, "err closed") else (upd st { h with dirty := false }, "ok")
+    | wop, [b] =>
+      if wop == "hw" || wop == "happ" || wop == "hput" || wop == "hsh" then
+        match parseBytes b with
+        | none => (st, "bad-op")
+        | some bs =>
+          let isFile := !h.obj.isText
+          if wop == "happ" && isFile then (st, "err kind") else
+          if h.mode < 0 && isFile && (wop == "hw" || wop == "hsh") then (st, "err closed") else
+          if h.mode == 0 then (st, "err mode") else
+          if h.mode < 0 && otherWriter st hi p then (st, "err busy") else
+          let (out, d', o') : String × Disk × Obj :=
+            if isFile then
+              if wop == "hput" then let r := h.obj.put st.disk bs; (b01 r.1, r.2.1, r.2.2)
+              else let r := h.obj.write st.disk bs; (if wop == "hw" then toString r.1 else "ok", r.2.1, r.2.2)
+            else
+              let r := h.obj.twrite st.disk (if wop == "happ" then .append else .write) bs
+              (if wop == "hsh" then "ok" else b01 r.1, r.2.1, r.2.2)
+          let h' := { h with obj := o' }
+          let st := { st with disk := d' }
+          if h'.mode ≥ 1 then
+            let st := bumpVer st p
+            (upd st { h' with dirty := true, ver := st.pver p }, out)
+          else (upd st h', out)
+      else if wop == "hfirst" || wop == "hr" then
+        match b.toNat? with
+        | none => (st, "bad-op")
+        | some k =>
+          if h.mode ≥ 1 then (st, "err mode") else
+          if wop == "hr" && h.mode < 0 then (st, "err closed") else
+          if pathDirty st p then (st, "err dirty") else
+          if h.poisoned then (st, "err poisoned") else
+          if h.spent then (st, "err spent") else
+          if h.mode == 0 && h.ver != st.pver p then (st, "err stale") else
+          let r := if wop == "hfirst" then h.obj.firstBytes st.disk k else h.obj.read k
+          let h' := { h with obj := r.2 }
+          let h' := if h.mode < 0 && h'.mode == 0 then { h' with ver := st.pver p } else h'
+          (upd st h', showBytes r.1)
+      else (st, "bad-op")
+    | qop, [] =>
+      if qop == "hsize" || qop == "hexists" || qop == "hisfile" || qop == "hisdir" || qop == "hmtime" then
+        let dirty := pathDirty st p
+        let h := if dirty then { h with poisoned := true } else h
+        if qop == "hsize" then
+          let r := h.obj.size st.disk
+          (upd st { h with obj := r.2 }, if dirty || h.poisoned then "?" else toString r.1)
+        else if qop == "hexists" then
+          let r := h.obj.exists st.disk
+          (upd st { h with obj := r.2 }, b01 r.1)
+        else if qop == "hisfile" then
+          let r := h.obj.isFile st.disk
+          (upd st { h with obj := r.2 }, b01 r.1)
+        else
+          (upd st { h with obj := h.obj.touch st.disk }, if qop == "hisdir" then "0" else "ok")
+      else if qop == "hcontent" || qop == "htext" || qop == "hlines" then
+        if (qop == "htext" || qop == "hlines") && !h.obj.isText then (st, "err kind") else
+        if h.mode ≥ 1 then (st, "err mode") else
+        if pathDirty st p then (st, "err dirty") else
+        if h.poisoned then (st, "err poisoned") else
+        if h.spent then (st, "err spent") else
+        if h.mode == 0 && h.ver != st.pver p then (st, "err stale") else
+        if (qop == "htext" || qop == "hlines") && h.mode == 0 && (h.obj.file.map hpos).getD 0 != 0 then (st, "err pos") else
+        let (out, o') : String × Obj :=
+          if qop == "hcontent" then let r := h.obj.content st.disk; (showBytes r.1, r.2)
+          else if qop == "htext" then
+            let r := h.obj.text st.disk
+            (match r.1 with | some t => showBytes t | none => "crash read-outside", r.2)
+          else let r := h.obj.lines st.disk; (showLines r.1, r.2)
+        let h' := { h with obj := o' }
+        let h' := if h.mode < 0 && h'.mode == 0 then { h' with ver := st.pver p } else h'
+        let h' := if (qop == "htext" || qop == "hlines") && h'.mode == 0 then { h' with spent := true } else h'
+        (upd st h', out)
+      else (st, "bad-op")
+    | _, _ => (st, "bad-op")
+  | _ => (st, "bad-op")
+
+def hOps : List String := ["hnew", "hopen", "hclose", "hflush", "hw", "happ", "hput", "hsh", "hsize", "hexists", "hisfile",
+  "hisdir", "hmtime", "hcontent", "hfirst", "hr", "htext", "hlines"]
+
+def obsOps : List String := ["raw", "size", "content", "text", "lines", "exists", "first"]
+
+def stepOld (st0 : St) (ts : List String) : St × String :=
   -- every operation that is not an operation *on the open session* closes the session first
   let sessionOps := ["w", "sb", "ss", "sc", "si", "r", "rl", "rlc", "end", "seek", "pos"]
   let st : St := match ts with
@@ -267,6 +416,28 @@ def step (st0 : St) (ts : List String) : St × String :=
   | ["xtext", b] => match parseBytes b with
     | some bs => let d := st.disk.set 0 (some bs); ({ st with disk := d }, textStr d 0)
     | none => (st, "bad-op")
+  | ["xobj", k, m, q, b1, b2] => match parseBytes b1, parseBytes b2 with
+    | some bs1, some bs2 =>
+      if (k != "f" && k != "t") || (m != "w" && m != "a") then (st, "bad-op") else
+      let isT := k == "t"
+      let d0 := st.disk.set 0 none
+      let r := (Obj.new 0 isT).open d0 (if m == "w" then .write else .append)
+      if !r.1 then ({ st with disk := r.2.1 }, "err open") else
+      let wr (d : Disk) (o : Obj) (bs : List UInt8) : Disk × Obj :=
+        if isT then let x := o.twrite d .write bs; (x.2.1, x.2.2) else let x := o.write d bs; (x.2.1, x.2.2)
+      let (d1, o1) := wr r.2.1 r.2.2 bs1
+      let o2 := if q == "size" then (o1.size d1).2 else if q == "exists" then (o1.exists d1).2
+        else if q == "isfile" then (o1.isFile d1).2 else if q == "isdir" || q == "mtime" then o1.touch d1 else o1
+      let (d2, o3) := wr d1 o2 bs2
+      let o4 := o3.close
+      let s := o4.size d2
+      let (txt, o5) : String × Obj :=
+        if isT then
+          let x := s.2.text d2
+          (" " ++ (match x.1 with | some t => showBytes t | none => "crash read-outside"), x.2.close)
+        else ("", s.2)
+      ({ st with disk := d2 }, s!"{s.1}{txt} {showBytes (o5.content d2).1}")
+    | _, _ => (st, "bad-op")
   | ["xput", api, b] => match parseBytes b with
     | some bs =>
       match applyApi (st.disk.set 0 none) api bs with
@@ -293,6 +464,21 @@ def step (st0 : St) (ts : List String) : St × String :=
       ({ st with disk := r.2 }, s!"{b01 r.1} {rawStr r.2 2} src={b01 (r.2 0).isSome}")
     | none => (st, "bad-op")
   | _ => (st, "bad-op")
+
+/-- h-operations work on the persistent objects; observations through temporaries leave them alone (and are
+    answered `?` / `err dirty` while the path has unflushed writes); every other operation closes them first -/
+def step (st : St) (ts : List String) : St × String :=
+  match ts with
+  | op :: rest =>
+    if hOps.contains op then hstep { st with sess := none } ts
+    else if obsOps.contains op then
+      match rest.head?.bind parsePath with
+      | some p =>
+        if pathDirty st p && op != "exists" then ({ st with sess := none }, if op == "size" then "?" else "err dirty")
+        else stepOld st ts
+      | none => stepOld st ts
+    else stepOld (closeAllHandles st) ts
+  | [] => stepOld st ts
 
 end Driver.C17
 
